@@ -305,3 +305,87 @@ Proof.
     eexists _, o2. split; [reflexivity|]. split; [|exact N2].
     rewrite S2, app_assoc, S1, <- !app_assoc. reflexivity.
 Qed.
+
+Lemma skipn_add {A} (a b : nat) (l : list A) : skipn b (skipn a l) = skipn (a + b) l.
+Proof.
+  revert l. induction a as [|a IH]; intros l; [reflexivity|].
+  destruct l as [|x l]; simpl; [destruct b; reflexivity|apply IH].
+Qed.
+
+(* ---- ErsatzPWrite: the file ends up with the data at [off, off+|data|), whatever the fragmentation ---- *)
+Lemma overwrite_app file off l1 l2 :
+  overwrite (overwrite file off l1) (off + length l1) l2 = overwrite file off (l1 ++ l2).
+Proof.
+  unfold overwrite.
+  set (P := file ++ repeat 0%Z (off - length file)).
+  assert (HP : off <= length P).
+  { unfold P. rewrite app_length, repeat_length. lia. }
+  set (F1 := firstn off P ++ l1 ++ skipn (off + length l1) P).
+  assert (Hfo : length (firstn off P) = off) by (rewrite firstn_length; lia).
+  assert (HF1 : off + length l1 <= length F1).
+  { unfold F1. rewrite !app_length, Hfo. lia. }
+  replace (off + length l1 - length F1) with 0 by lia. simpl repeat. rewrite app_nil_r.
+  assert (H1 : firstn (off + length l1) F1 = firstn off P ++ l1).
+  { unfold F1. rewrite app_assoc. rewrite firstn_app.
+    replace (off + length l1 - length (firstn off P ++ l1)) with 0 by (rewrite app_length, Hfo; lia).
+    simpl. rewrite app_nil_r. apply firstn_all2. rewrite app_length, Hfo. lia. }
+  assert (H2 : skipn (off + length l1 + length l2) F1 = skipn (off + length (l1 ++ l2)) P).
+  { unfold F1. rewrite app_assoc. rewrite skipn_app.
+    rewrite skipn_all2 by (rewrite app_length, Hfo; lia). simpl.
+    rewrite app_length, Hfo.
+    replace (off + length l1 + length l2 - (off + length l1)) with (length l2) by lia.
+    rewrite app_length. rewrite skipn_add. f_equal. lia. }
+  rewrite H1, H2, <- !app_assoc. reflexivity.
+Qed.
+
+Lemma ersatz_pwrite_loop_ok : forall fuel data off file o,
+  no_err (os_script o) = true -> length data + length (os_script o) < fuel -> data <> [] ->
+  exists o', ersatz_pwrite_loop fuel data off file o = (Ok (overwrite file off data), o') /\
+    no_err (os_script o') = true.
+Proof.
+  induction fuel as [|f IH]; intros data off file o Hne Hf Hd; [lia|].
+  destruct data as [|b d]; [congruence|].
+  cbn [ersatz_pwrite_loop]. unfold sys_pwrite.
+  destruct (next_outcome_cases o Hne) as (oc & rest & Hn & Hr & Hoc & Hl & Hei). rewrite Hn.
+  assert (Hdata : forall oc', exists o',
+     (let l := firstn (granted oc' (length (b :: d))) (b :: d) in
+      match l with
+      | [] => (Fail EEndOfFile, mkOs (os_src o) rest ((length (b :: d), Z.of_nat (length l)) :: os_trace o) (os_sink o))
+      | _ => ersatz_pwrite_loop f (skipn (length l) (b :: d)) (off + length l) (overwrite file off l)
+               (mkOs (os_src o) rest ((length (b :: d), Z.of_nat (length l)) :: os_trace o) (os_sink o))
+      end) = (Ok (overwrite file off (b :: d)), o') /\ no_err (os_script o') = true).
+  { intros oc'. cbv zeta.
+    pose proof (granted_le oc' (length (b :: d))) as Hg1.
+    assert (Hg2 : 1 <= granted oc' (length (b :: d))) by (apply granted_pos; simpl; lia).
+    set (g := granted oc' (length (b :: d))) in *.
+    assert (Hlg : length (firstn g (b :: d)) = g) by (rewrite firstn_length; lia).
+    destruct (firstn g (b :: d)) as [|x l] eqn:El; [simpl in Hlg; lia|].
+    rewrite <- El in *. rewrite Hlg.
+    destruct (skipn g (b :: d)) as [|y r] eqn:Es.
+    - (* everything was accepted *)
+      assert (Hall : firstn g (b :: d) = b :: d).
+      { rewrite <- (firstn_skipn g (b :: d)) at 2. rewrite Es, app_nil_r. reflexivity. }
+      rewrite Hall. destruct f; [cbn [os_script] in *; simpl in Hf; lia|].
+      eexists. split; [reflexivity|]. exact Hr.
+    - rewrite <- Es.
+      destruct (IH (skipn g (b :: d)) (off + g) (overwrite file off (firstn g (b :: d)))
+                  (mkOs (os_src o) rest ((length (b :: d), Z.of_nat g) :: os_trace o) (os_sink o))) as (o' & E & N); auto.
+      { cbn [os_script]. rewrite skipn_length. lia. }
+      { rewrite Es. discriminate. }
+      exists o'. rewrite E. split; [|exact N]. f_equal. f_equal.
+      replace (off + g) with (off + length (firstn g (b :: d))) by (rewrite Hlg; reflexivity).
+      rewrite overwrite_app, firstn_skipn. reflexivity. }
+  destruct oc as [|k| |e].
+  - apply Hdata.
+  - apply Hdata.
+  - specialize (Hei eq_refl).
+    destruct (IH (b :: d) off file (mkOs (os_src o) rest ((length (b :: d), (-1)%Z) :: os_trace o) (os_sink o))) as (o' & E & N); auto.
+    { cbn [os_script]. lia. }
+    exists o'. split; [exact E|exact N].
+  - exfalso. eapply Hoc. reflexivity.
+Qed.
+
+Lemma ersatz_pwrite_ok data off file o :
+  no_err (os_script o) = true -> data <> [] ->
+  exists o', ersatz_pwrite data off file o = (Ok (overwrite file off data), o') /\ no_err (os_script o') = true.
+Proof. intros H Hd. apply ersatz_pwrite_loop_ok; [exact H|lia|exact Hd]. Qed.
